@@ -299,6 +299,13 @@ impl Sandbox {
                     std::os::unix::fs::symlink(World::subst(t, &root), &p)?;
                 }
                 Kind::Hardlink(t) => links.push((self.root.join(t), p)),
+                Kind::Fifo => {
+                    let c = CString::new(p.as_os_str().as_encoded_bytes()).map_err(|_| std::io::Error::other("nul in path"))?;
+                    if unsafe { libc::mkfifo(c.as_ptr(), f.mode as libc::mode_t) } != 0 {
+                        return Err(std::io::Error::last_os_error());
+                    }
+                    std::fs::set_permissions(&p, std::fs::Permissions::from_mode(f.mode))?;
+                }
             }
         }
         for (target, p) in links {
@@ -391,6 +398,19 @@ fn walk(root: &Path, dir: &Path, root_s: &str, out: &mut BTreeMap<String, FileSt
                 },
             );
             walk(root, &p, root_s, out);
+        } else if {
+            use std::os::unix::fs::FileTypeExt;
+            md.file_type().is_fifo()
+        } {
+            // never read: that would block, and what is left in a pipe is no file content
+            out.insert(
+                rel,
+                FileState {
+                    kind: Kind::Fifo,
+                    bytes: Blob::default(),
+                    mode,
+                },
+            );
         } else {
             let bytes = std::fs::read(&p).unwrap_or_default();
             // file contents may mention the sandbox root (e.g. `input_filename`): report them
@@ -527,6 +547,8 @@ struct Run<'a> {
     entropy: u64,
     /// files the tracee created exclusively (temporary files): real path -> stable alias
     tmp_alias: HashMap<String, String>,
+    /// write ends of the world's named pipes (by token path), held until the tracee first reads
+    fifo_writers: HashMap<String, std::fs::File>,
 }
 
 enum Decision {
@@ -956,7 +978,27 @@ pub fn run(sb: &Sandbox, w: &World) -> Result<History, TraceError> {
         stdin_delivered: 0,
         entropy: w.entropy ^ 0x5DEECE66D,
         tmp_alias: HashMap::new(),
+        fifo_writers: HashMap::new(),
     };
+    for f in w.files.iter().filter(|f| f.kind == Kind::Fifo) {
+        use std::io::Write;
+        use std::os::unix::fs::OpenOptionsExt;
+        // read-write so that neither this open nor the tracee's blocks; close-on-exec (std's default)
+        let mut wr = std::fs::OpenOptions::new()
+            .read(true)
+            .write(true)
+            .custom_flags(libc::O_NONBLOCK)
+            .open(sb.root.join(&f.path))
+            .map_err(|e| te(format!("fifo {}: {e}", f.path)))?;
+        let bytes = if contains(&f.bytes.0, ROOT_TOKEN.as_bytes()) {
+            replace_bytes(&f.bytes.0, ROOT_TOKEN.as_bytes(), root.as_bytes())
+        } else {
+            f.bytes.0.clone()
+        };
+        // everything must fit into the pipe: there is no producer process to write the rest later
+        wr.write_all(&bytes).map_err(|e| te(format!("fifo {} ({} bytes): {e}", f.path, bytes.len())))?;
+        run.fifo_writers.insert(format!("{ROOT_TOKEN}/{}", f.path), wr);
+    }
     let mut tasks: HashMap<i32, Task> = HashMap::new();
     let new_task = || Task {
         in_syscall: false,
@@ -1178,6 +1220,13 @@ pub fn run(sb: &Sandbox, w: &World) -> Result<History, TraceError> {
                 let seq = op.seq;
                 run.ops.push(op);
                 task.cur = Some(run.ops.len() - 1);
+                if run.ops.last().is_some_and(|o| o.class == Class::Read) {
+                    // the producer of a named pipe hangs up as soon as the reader starts to read:
+                    // what it wrote stays in the pipe, followed by the end of the stream
+                    if let Some(o) = run.ops.last().and_then(|o| o.obj.clone()) {
+                        run.fifo_writers.remove(&o);
+                    }
+                }
                 match decision {
                     Decision::Proceed => {}
                     Decision::Skip(ret) => {
